@@ -7,7 +7,8 @@ EXTENDS CoarseGrain, Json
 
 CONSTANTS Shapes, MaxGroup, Emit
 QuickShapes == {<<2, 2, 1>>, <<3, 1, 1>>, <<1, 2, 2>>}
-ThoroughShapes == {<<2, 2, 1>>, <<4, 1, 1>>, <<3, 2, 1>>, <<2, 2, 2>>}
+(* thorough: every orientation of the 4-cell grids and a 5-cell row (about 160k cases; 3x2x1 and 2x2x2 did not finish in an hour) *)
+ThoroughShapes == {<<2, 2, 1>>, <<4, 1, 1>>, <<1, 2, 2>>, <<2, 1, 2>>, <<1, 4, 1>>, <<1, 1, 4>>, <<5, 1, 1>>}
 VARIABLES shape, env, map
 cv == <<shape, env, map>>
 W == shape[1]  H == shape[2]  D == shape[3]
